@@ -80,6 +80,12 @@ def _work(job):
     if r == 'candidate':
         candidate = info
     if r != 'unsat' and r != 'sat':
+        # cvc5 next: its E-matching + enumerative instantiation is fast on these VCs
+        r2, info2, dt2 = _cvc5_check(text, min(timeout_ms / 1000.0, 5.0))
+        dt += dt2
+        if r2 == 'unsat':
+            return idx, 'unsat', '', dt, 'cvc5'
+    if r != 'unsat' and r != 'sat':
         r1, info1, dt1 = _z3_check(text, timeout_ms, True)
         dt += dt1
         backend = 'z3'
